@@ -392,7 +392,14 @@ def k5(chk, repo):
         key = "Disp.compute %s" % sig_txt(r.sigma)
         ob = r.final.heap.get(("out", "disp"))
         d = ob.dom.get("SYMX") if ob is not None else None
-        extra = [e for e in r.events if e.kind == "store" and e.d.get("cell") == ("out", "disp") and (e.d.get("csubs") or e.d.get("op") != "=")]
+        allst = [e for e in r.events if e.kind == "store" and e.d.get("cell") == ("out", "disp")]
+        # the defining store: the first plain store of the whole array (outputs[k] = v, outputs[k][:] = v, [...] = v)
+        whole_ = lambda e_: e_.d.get("op") == "=" and all(x_.replace(" ", "") in ("", ":", "...") for x_ in (e_.d.get("csubs") or ("",)))
+        first_def = next((e_ for e_ in allst if whole_(e_)), None)
+        extra = [e for e in allst if e is not first_def]
+        if first_def is not None and d is None:
+            v_ = first_def.d.get("val")
+            d = v_.dom.get("SYMX") if v_ is not None else None
         if extra:
             e = extra[0]
             chk.violation("K5", key, "%s:%d" % (c.mod.rel, e.lineno), "after copying the solution, Disp modifies it (%s %s ...): the reported displacements are no longer the solution of K u = f" % (e.d.get("target"), e.d.get("op")))
